@@ -565,11 +565,17 @@ def live_case(ctx, mech, p1, assigned, value, warm_seed, ops):
     direct(s1, pt)
     rep_same = all(feq(pt.rep[k][0], fresh.rep[k][0], 1e-9, 1e-300) for k in ("bias", "variance"))
     if s1.violations:
-        v = s1.violations[0]
+        data = {"mech": mech, "params": p2, "value": value,
+                "live": {"constructed_with": p1, "assigned": assigned, "warm_seed": warm_seed, "ops": ops}}
+        stale = [v for v in s1.violations if v["signature"].endswith(":wrong-value")]
+        if not stale:
+            # the deviation is one of the root-cause classes of the formula itself (rounding of a large intermediate …),
+            # met at the scale the live object kept: it keeps its own signature
+            for v in s1.violations:
+                emit(ctx, v["signature"], f"live object: {mech}({p1}) -> {ran} -> assign {assigned}: " + v["what"], data)
+            return "formula-class"
         emit(ctx, f"C19:{mech}:moments-stale-after-parameter-change",
-             f"live object: {mech}({p1}) -> {ran} -> assign {assigned}: " + v["what"],
-             {"mech": mech, "params": p2, "value": value,
-              "live": {"constructed_with": p1, "assigned": assigned, "warm_seed": warm_seed, "ops": ops}})
+             f"live object: {mech}({p1}) -> {ran} -> assign {assigned}: " + stale[0]["what"], data)
         return "stale-violates"
     if not rep_same:
         ctx.count("live_reported_differs_from_fresh_but_matches_its_sampler")
@@ -654,7 +660,8 @@ def replay(ctx, data):
             p1["sensitivity"] = int(p1["sensitivity"])
             if "sensitivity" in asg:
                 asg["sensitivity"] = int(asg["sensitivity"])
-        return live_case(ctx, dd["mech"], p1, asg, v, int(lv["warm_seed"]), list(lv["ops"])) == "stale-violates"
+        return live_case(ctx, dd["mech"], p1, asg, v, int(lv["warm_seed"]), list(lv["ops"])) in ("stale-violates",
+                                                                                                  "formula-class")
     if "changed" in dd:
         # monotonicity record
         cls = getattr(M, pt.mech)
